@@ -10,6 +10,8 @@ for d in sorted((V / "seeded").iterdir()):
     if not (d / "meta.json").exists():
         continue
     m = json.loads((d / "meta.json").read_text())
+    if m.get("kind") == "benign":
+        continue
     r = res.get(d.name, {})
     out = []
     for pid, c in r.get("checks", {}).items():
